@@ -60,6 +60,9 @@ structure GS where
   fresh : Option (Option HeaderV) := none
   acts : List Action := []
   allocIdx : Nat := 0
+  /-- the word in front of the elements of the block just obtained holds the block's alignment
+      (`from_raw_part(s)` finds the header through it) -/
+  mirrored : Bool := false
   deriving Repr, Inhabited
 
 /-- Everything a generated function is parameterised by. -/
@@ -112,7 +115,7 @@ def alloc (E : Env) (l : Layout) : GM Tok := fun s =>
     (.ok .null, { s with acts := s.acts ++ [.allocFail l.size l.align], allocIdx := s.allocIdx + 1 })
   else
     (.ok .blk, { s with acts := s.acts ++ [.alloc l.size l.align], allocIdx := s.allocIdx + 1,
-                        fresh := some none })
+                        fresh := some none, mirrored := false })
 
 /-- `alloc::alloc::realloc(self.buf.as_ptr(), old_layout, new_size)`; on success the old block is
     gone and its bytes (in particular its header) have moved to the new one. -/
@@ -124,7 +127,7 @@ def realloc (E : Env) (old : Layout) (newSize : Nat) : GM Tok := fun s =>
   else
     (.ok .blk, { s with acts := s.acts ++ [.realloc old.size old.align newSize],
                         allocIdx := s.allocIdx + 1,
-                        fresh := some (some ⟨s.len, s.cap, s.align⟩) })
+                        fresh := some (some ⟨s.len, s.cap, s.align⟩), mirrored := false })
 
 /-- `alloc::alloc::handle_alloc_error(layout)` -/
 def handleAllocError {α} (_l : Layout) : GM α := throw .allocError
@@ -135,12 +138,24 @@ def writeHeader (t : Tok) (h : HeaderV) : GM Unit := fun s =>
   | .blk, some _ => (.ok (), { s with fresh := some (some h) })
   | _, _ => (.error .ub, s)
 
-/-- `self.buf = NonNull::new_unchecked(new_buf)` -/
+/-- `ptr::write(new_buf.add(off).cast::<usize>(), val)`: legal only as the write of the header's
+    alignment into the word right in front of the elements of the block just obtained -/
+def writeMirror (t : Tok) (off val : Nat) : GM Unit := fun s =>
+  match t, s.fresh with
+  | .blk, some (some h) =>
+      if val = h.alignment ∧ off + wordSize = alignUp hdrSize h.alignment then (.ok (), { s with mirrored := true })
+      else (.error .ub, s)
+  | _, _ => (.error .ub, s)
+
+/-- `self.buf = NonNull::new_unchecked(new_buf)`. A block whose word in front of the elements was not
+    written is never installed in the model: `from_raw_part(s)` would read an uninitialised word. -/
 def setBuf (t : Tok) : GM Unit := fun s =>
   match t, s.fresh with
   | .blk, some (some h) =>
-      (.ok (), { s with isDefault := false, len := h.len, cap := h.cap, align := h.alignment,
-                        fresh := none, acts := s.acts ++ [.install h] })
+      if s.mirrored then
+        (.ok (), { s with isDefault := false, len := h.len, cap := h.cap, align := h.alignment,
+                          fresh := none, mirrored := false, acts := s.acts ++ [.install h] })
+      else (.error .ub, s)
   | _, _ => (.error .ub, s)
 
 /-- `self.buf = <sentinel>` (the block now belongs to another handle). -/
